@@ -23,6 +23,10 @@ type C10Rec struct {
 	Reads int            `json:"reads"`
 	Panic string         `json:"panic,omitempty"`
 	Hung  bool           `json:"hung"`
+	// stalled store: virtual milliseconds until the stream was answered or reset, and the server's RequestTimeout
+	Stalled   bool `json:"stalled"`
+	ElapsedMs int  `json:"elapsedMs"`
+	BudgetMs  int  `json:"budgetMs"`
 }
 
 type C10Obs struct {
@@ -118,12 +122,19 @@ func TestServer(t *testing.T) {
 				proxy.reset()
 				rs.Reads = 0
 				payload := payloadFor(in, chain, rnd)
-				rec := C10Rec{Tr: id, In: in}
+				rec := C10Rec{Tr: id, In: in, Stalled: mbt.Bool(in, "stall"), BudgetMs: int(p2p.DefaultServerParameters().RequestTimeout / time.Millisecond)}
+				proxy.mu.Lock()
+				proxy.stall = rec.Stalled
+				proxy.mu.Unlock()
 				done := make(chan rawResp, 1)
+				t0 := time.Now()
+				var t1 time.Time
 				go func() {
-					ctx, cancel := context.WithTimeout(bg, time.Minute)
+					ctx, cancel := context.WithTimeout(bg, 10*time.Minute)
 					defer cancel()
-					done <- rawRequest(ctx, hosts[0], hosts[1], payload, chain)
+					r := rawRequest(ctx, hosts[0], hosts[1], payload, chain)
+					t1 = time.Now()
+					done <- r
 				}()
 				synctest.Wait()
 				var r rawResp
@@ -140,6 +151,12 @@ func TestServer(t *testing.T) {
 						r = rawResp{Status: "hung", Heights: []int{}}
 					}
 				}
+				proxy.mu.Lock()
+				proxy.stall = false
+				proxy.mu.Unlock()
+				if !t1.IsZero() {
+					rec.ElapsedMs = int(t1.Sub(t0) / time.Millisecond)
+				}
 				rec.Obs = C10Obs{Status: r.Status, Heights: r.Heights, Spans: [][]int{}}
 				if r.Bad {
 					rec.Obs.Status = "bad"
@@ -153,7 +170,9 @@ func TestServer(t *testing.T) {
 				tw.Put(rec)
 				res := mbt.Result{ID: id, Key: mbt.J(in), NonTriv: r.Status != "ok", Verdict: "ok"}
 				want := mbt.Map(c, "predicted")
-				if r.Status != mbt.Str(want, "status") || mbt.J(r.Heights) != mbt.J(mbt.Ints(want["heights"])) || mbt.J(rec.Obs.Spans) != mbt.J(normSpans(want["spans"])) {
+				if rec.Stalled {
+					// no model prediction for a stalled store: judged by the time clause only
+				} else if r.Status != mbt.Str(want, "status") || mbt.J(r.Heights) != mbt.J(mbt.Ints(want["heights"])) || mbt.J(rec.Obs.Spans) != mbt.J(normSpans(want["spans"])) {
 					res.Verdict = "drift"
 					res.Detail = fmt.Sprintf("in=%s observed %s, model %s", mbt.J(in), mbt.J(rec.Obs), mbt.J(want))
 				}
